@@ -20,14 +20,14 @@ from .. import cli_corr as cc, common, gen
 from ..common import Result, Violation
 
 META = dict(
-    level='Lean theorems over the regenerated CLI model (Gen/Cli.lean: parse table by introspection of the real argparse parser, run_date/run_preprocess flattened from their ASTs), for every argument namespace: `tsdate preprocess` passes every option to preprocess_ts under its name (full); `tsdate date` errors explicitly, or passes every option under the documented keyword, or the option was not given - for all options except -e under variational_gamma (partial; the negation of the full statement is proved: -e is silently ignored there, a known finding); successful runs load args.tree_sequence, call the right function once and dump to args.output; boolean converters map False/false/0/no to False and True/true/1/yes to True. Tie: translator every run + exhaustive lattice (8192 date + 1568 preprocess command lines) of real tsdate_main runs with recorded API calls vs the Lean interpreter; real CLI-vs-API file comparison on a sample. Outside: argparse itself, numeric conversion of option values, tskit.load failure path.',
+    level='Lean theorems over the regenerated CLI model (Gen/Cli.lean: parse table by introspection of the real argparse parser, run_date/run_preprocess flattened from their ASTs), for every argument namespace: `tsdate preprocess` passes every option to preprocess_ts under its name (full); `tsdate date` errors explicitly, or passes every option under the documented keyword, or the option was not given - for all options except -e under variational_gamma (partial; the negation of the full statement is proved: -e is silently ignored there, a known finding); successful runs load args.tree_sequence, call the right function once and dump to args.output; every keyword passed is a parameter of the API function reached (signatures regenerated from core.py/util.py); boolean converters map False/false/0/no to False and True/true/1/yes to True. Tie: translator every run + exhaustive lattice (8192 date + 1568 preprocess command lines) of real tsdate_main runs with recorded API calls vs the Lean interpreter; real CLI-vs-API file comparison on a sample. Outside: argparse itself, numeric conversion of option values, tskit.load failure path.',
     note='Lean kernel + {propext, Classical.choice, Quot.sound}; translator translate/cli.py (~300 lines) trusted but cross-checked by executing the generated program against the real runner on the whole lattice; argparse by contract',
     technique='source-to-Lean translation of the runners + generic soundness theorem of a decidable static check + exhaustive correspondence over the option lattice',
     ref='§3 C34',
 )
 LEAN_PROPS = ["TsdateVerif.Props.C34"]
 LEAN_BUILD = ["TsdateVerif.Model.Proto", "TsdateVerif.Gen.Cli"]
-TRANSLATORS = ["cli"]
+TRANSLATORS = ["cli", "provparams"]
 ASSUMPTIONS = [
     "argparse (option matching, nargs, choices, store_true/count actions) is taken by contract; the namespace handed to the model is the one the real parser produced",
     "float()/int() conversion of option values is not modelled (values cross as parsed objects)",
